@@ -82,7 +82,7 @@ func (m *MessageClientKeyExchange) Unmarshal(data []byte) error {
 			return dtlserrors.ErrBufferTooSmall
 		}
 
-		m.PublicKey = bytes.Clone(data[offset+1:])
+		m.PublicKey = bytes.Clone(data[offset+1 : offset+1+publicKeyLength])
 	}
 
 	return nil
